@@ -210,7 +210,9 @@ class Op:
         """
         # simplest case
         if len(self.dofs) == 1:
-            return [Op(self.symbol, self.dofs, qn=self.qn_list)], self.factor
+            # the same spelling as the general case below (``b^\dagger + b`` is stored as ``b^\dagger+b``),
+            # so that an operator is the same elementary operator whether or not it is part of a product
+            return [Op(self.split_symbol[0], self.dofs, qn=self.qn_list)], self.factor
         # group operators according to site index.
         # The same site idx (the same basis) in one group.
         grouped_op_info: Dict[int, List[Op]] = defaultdict(list)
